@@ -21,7 +21,9 @@ import (
 	"path/filepath"
 	"sort"
 	"strings"
+	"sync"
 	"testing"
+	"testing/synctest"
 	"time"
 
 	"github.com/alephium/wormhole-fork/node/pkg/common"
@@ -113,6 +115,9 @@ func (w *dbWorld) RoundTrip(req *http.Request) (*http.Response, error) {
 	mk := func(code int, body []byte) *http.Response {
 		return &http.Response{StatusCode: code, Status: fmt.Sprint(code), Proto: "HTTP/1.1", ProtoMajor: 1, ProtoMinor: 1, Header: http.Header{},
 			Body: io.NopCloser(bytes.NewReader(body)), ContentLength: int64(len(body)), Request: req}
+	}
+	if err := req.Context().Err(); err != nil {
+		return nil, err
 	}
 	w.bfCalls++
 	switch h := simkit.Hash64(w.seed, "backfill", req.URL.Path) % 20; {
@@ -229,10 +234,18 @@ func (w *dbWorld) checkGap(id dbID, missing []uint64, first, last uint64, via st
 }
 
 func (w *dbWorld) run(p *simkit.Program) {
-	ctx := context.Background()
 	for i, st := range p.Steps {
 		w.step = i
 		id := unpackID(st.A)
+		// D=1: the caller has gone away (its context is cancelled). The answer may then be an error;
+		// an answer that claims success must still be the right one.
+		ctx, gone := context.Background(), false
+		if st.D == 1 {
+			c, cancel := context.WithCancel(context.Background())
+			cancel()
+			ctx, gone = c, true
+			w.stats.Fault("caller-context-cancelled")
+		}
 		switch st.Op {
 		case "store":
 			v, exp := buildVAA(id, st.B, st.C)
@@ -267,6 +280,10 @@ func (w *dbWorld) run(p *simkit.Program) {
 			}
 			resp, rerr := w.rpc.GetSignedVAA(ctx, &publicrpcv1.GetSignedVAARequest{MessageId: &publicrpcv1.MessageID{
 				EmitterChain: publicrpcv1.ChainID(id.ec), EmitterAddress: hex.EncodeToString(id.addr[:]), TargetChain: publicrpcv1.ChainID(id.tc), Sequence: id.seq}})
+			if gone && rerr != nil && status.Code(rerr) != codes.NotFound {
+				w.log.Add("get %s -> error (caller gone)", id.key())
+				break
+			}
 			if exp == nil {
 				if status.Code(rerr) != codes.NotFound {
 					w.violate("rpc-absent-id-not-notfound", "public RPC for absent %s: err=%v", id.key(), rerr)
@@ -288,7 +305,9 @@ func (w *dbWorld) run(p *simkit.Program) {
 			w.checkGap(id, missing, first, last, "db")
 			resp, err := w.adm.FindMissingMessages(ctx, &nodev1.FindMissingMessagesRequest{EmitterChain: uint32(id.ec), EmitterAddress: hex.EncodeToString(id.addr[:]), TargetChain: uint32(id.tc)})
 			if err != nil {
-				w.violate("gap-query-error", "FindMissingMessages(%s): %v", id.stream(), err)
+				if !gone {
+					w.violate("gap-query-error", "FindMissingMessages(%s): %v", id.stream(), err)
+				}
 				break
 			}
 			var m2 []uint64
@@ -310,10 +329,50 @@ func (w *dbWorld) run(p *simkit.Program) {
 			}
 			// the same gap query, with backfill from a (simulated) public RPC node switched on
 			w.bfAnswers = map[string]int{}
+			// the consumer of backfilled VAAs (the processor's signed-VAA input): roomy queue, or
+			// (C=1) an unbuffered hand-off to a consumer that takes three seconds per VAA
+			handed := map[string]bool{}
+			var hmu sync.Mutex
+			stopC, doneC := make(chan struct{}), make(chan struct{})
+			inC := make(chan *gossipv1.SignedVAAWithQuorum, 4096)
+			if st.C == 1 {
+				inC = make(chan *gossipv1.SignedVAAWithQuorum)
+				w.stats.Fault("backfill-consumer-slow")
+			}
+			w.adm.signedInC = inC
+			go func() {
+				defer close(doneC)
+				for {
+					select {
+					case m := <-inC:
+						hmu.Lock()
+						handed[string(m.Vaa)] = true
+						hmu.Unlock()
+						if st.C == 1 {
+							select {
+							case <-time.After(3 * time.Second):
+							case <-stopC:
+							}
+						}
+					case <-stopC:
+						return
+					}
+				}
+			}()
 			resp, err := w.adm.FindMissingMessages(ctx, &nodev1.FindMissingMessagesRequest{EmitterChain: uint32(id.ec), EmitterAddress: hex.EncodeToString(id.addr[:]),
 				TargetChain: uint32(id.tc), RpcBackfill: true, BackfillNodes: []string{"http://backfill.sim"}})
 			w.stats.Fault("gap-query-with-backfill")
+			synctest.Wait()
+			close(stopC)
+			<-doneC
+			for len(inC) > 0 {
+				handed[string((<-inC).Vaa)] = true
+			}
 			if err != nil {
+				if gone {
+					w.log.Add("gapbf %s -> error (caller gone)", id.stream())
+					break
+				}
 				// failing the whole request is an honest answer when a backfill node misbehaves
 				has503 := false
 				for _, c := range w.bfAnswers {
@@ -344,6 +403,10 @@ func (w *dbWorld) run(p *simkit.Program) {
 						w.violate("gap-silently-dropped-from-report", "stream %s holds %v; sequence %d is missing, the backfill node answered %d for it, yet it is not in the missing-messages report %v",
 							id.stream(), P, q, w.bfAnswers[path], resp.MissingMessages)
 					}
+					if !present[q] && !reported[q] && w.bfAnswers[path] == 200 && !handed["backfilled "+path] {
+						w.violate("backfilled-vaa-lost", "stream %s: sequence %d is left out of the missing-messages report as backfilled, but the VAA the backfill node served never reached the signed-VAA input",
+							id.stream(), q)
+					}
 				}
 			}
 			w.log.Add("gapbf %s -> %d missing", id.stream(), len(resp.MissingMessages))
@@ -358,7 +421,9 @@ func (w *dbWorld) run(p *simkit.Program) {
 			if id.ai == 2 {
 				resp, err := w.rpc.GetGovernanceVAABatch(ctx, &publicrpcv1.GetGovernanceVAABatchRequest{Sequences: seqs})
 				if err != nil {
-					w.violate("governance-batch-error", "GetGovernanceVAABatch: %v", err)
+					if !gone {
+						w.violate("governance-batch-error", "GetGovernanceVAABatch: %v", err)
+					}
 					break
 				}
 				var got, want []string
@@ -385,7 +450,9 @@ func (w *dbWorld) run(p *simkit.Program) {
 				resp, err := w.rpc.GetNonGovernanceVAABatch(ctx, &publicrpcv1.GetNonGovernanceVAABatchRequest{EmitterChain: publicrpcv1.ChainID(id.ec),
 					EmitterAddress: hex.EncodeToString(id.addr[:]), TargetChain: publicrpcv1.ChainID(id.tc), Sequences: seqs})
 				if err != nil {
-					w.violate("batch-error", "GetNonGovernanceVAABatch: %v", err)
+					if !gone {
+						w.violate("batch-error", "GetNonGovernanceVAABatch: %v", err)
+					}
 					break
 				}
 				got := map[uint64][]byte{}
@@ -435,7 +502,7 @@ func (w *dbWorld) run(p *simkit.Program) {
 	}
 }
 
-type dbHarness struct{}
+type dbHarness struct{ t *testing.T }
 
 func (dbHarness) Name() string { return "dbsim" }
 
@@ -486,14 +553,23 @@ func (dbHarness) Gen(seed uint64, prop, tier string) *simkit.Program {
 			add("store", packID(s.ci, s.ai, s.ti, r.Intn(13)), bv, int64(r.Intn(12)))
 		case 1:
 			add("get", packID(s.ci, s.ai, s.ti, r.Intn(14)), 0, 0)
+			if r.P(0.05) {
+				p.Steps[len(p.Steps)-1].D = 1
+			}
 		case 2:
 			if r.P(0.3) {
-				add("gapbf", packID(s.ci, s.ai, s.ti, 0), 0, 0)
+				add("gapbf", packID(s.ci, s.ai, s.ti, 0), 0, int64(r.Pick(3, 1)))
 			} else {
 				add("gap", packID(s.ci, s.ai, s.ti, 0), 0, 0)
 			}
+			if r.P(0.08) {
+				p.Steps[len(p.Steps)-1].D = 1
+			}
 		case 3:
 			add("batch", packID(s.ci, s.ai, s.ti, 0), int64(r.Intn(1<<13)), 0)
+			if r.P(0.12) {
+				p.Steps[len(p.Steps)-1].D = 1
+			}
 		case 4:
 			add("reopen", 0, 0, 0)
 		case 5:
@@ -508,7 +584,7 @@ func (dbHarness) Gen(seed uint64, prop, tier string) *simkit.Program {
 	return p
 }
 
-func (dbHarness) Exec(p *simkit.Program) *simkit.Result {
+func (h dbHarness) Exec(p *simkit.Program) *simkit.Result {
 	res := &simkit.Result{Seed: p.Seed, Prop: p.Prop, Steps: len(p.Steps)}
 	scratch := os.Getenv("VERIF_SCRATCH")
 	if scratch == "" {
@@ -522,19 +598,34 @@ func (dbHarness) Exec(p *simkit.Program) *simkit.Result {
 	oldT := http.DefaultTransport
 	http.DefaultTransport = w
 	defer func() { http.DefaultTransport = oldT }()
-	if err := w.open(); err != nil {
-		res.HarnessErr = err.Error()
-		return res
+	// everything runs on the fake clock of a synctest bubble: the backfill path has a one-second
+	// budget per sequence and a consumer of backfilled VAAs that may be slower than that
+	body := func(t *testing.T) {
+		if err := w.open(); err != nil {
+			res.HarnessErr = err.Error()
+			return
+		}
+		func() {
+			defer func() {
+				if r := recover(); r != nil {
+					w.violate("store-panic", "panic: %v", r)
+				}
+			}()
+			w.run(p)
+		}()
+		w.d.Close()
 	}
 	func() {
 		defer func() {
 			if r := recover(); r != nil {
-				w.violate("store-panic", "panic: %v", r)
+				res.HarnessErr = "bubble: " + fmt.Sprint(r)
 			}
 		}()
-		w.run(p)
+		synctest.Test(h.t, body)
 	}()
-	w.d.Close()
+	if res.HarnessErr != "" {
+		return res
+	}
 	w.stats.ProbeN("lookups", int64(w.gets))
 	w.stats.ProbeN("lookup-hits", int64(w.hits))
 	w.stats.ProbeN("gap-queries", int64(w.gaps))
@@ -550,7 +641,7 @@ func TestVerifSim(t *testing.T) {
 	if os.Getenv("VERIF_OUT") == "" {
 		t.Skip("verification harness: run through /verif/bin/check")
 	}
-	if msg := simkit.Main(dbHarness{}); msg != "" {
+	if msg := simkit.Main(dbHarness{t}); msg != "" {
 		fmt.Println("HARNESS-TROUBLE: " + msg)
 		t.Fatal(msg)
 	}
